@@ -1,9 +1,8 @@
 package quic
 
-// [UQUIC] SetConnectionIDLimit was previously used to set a custom active connection ID
-// limit on the connIDManager. In quic-go v0.59.1, the connIDManager no longer stores
-// this limit — it is enforced via protocol.MaxActiveConnectionIDs and the peer's
-// transport parameters. This function is kept as a no-op for API compatibility;
-// the ActiveConnectionIDLimit value in the transport parameters already controls
-// how many connection IDs the server will send us.
-func (h *connIDManager) SetConnectionIDLimit(_ uint64) {}
+// [UQUIC] SetConnectionIDLimit records the active_connection_id_limit that a QUICSpec puts into
+// the client's transport parameters. The peer may issue connection IDs up to that limit, so the
+// connIDManager must not enforce the smaller protocol.MaxActiveConnectionIDs against it
+// (Firefox advertises 8: every dial against a server issuing more than 4 connection IDs failed
+// with a locally generated CONNECTION_ID_LIMIT_ERROR).
+func (h *connIDManager) SetConnectionIDLimit(limit uint64) { h.connIDLimit = limit }
